@@ -32,6 +32,8 @@ class ValidationError(Exception):       # stands for jsonschema's (a direct subc
 
 
 def make_exc(cls: str) -> BaseException:
+    if cls.startswith("SystemExit:"):
+        return SystemExit(json.loads(cls.split(":", 1)[1]))
     table = {
         "RuntimeError": lambda: RuntimeError("jsonschema is required for validation. Install rbacx[validate]."),
         "RecursionError": lambda: RecursionError("maximum recursion depth exceeded"),
@@ -110,6 +112,23 @@ class _File:
         return self.text
 
 
+class _Parser:
+    """what `build_parser()` returns: `parse_args(argv)` answers from the table — a dict of attributes becomes a Namespace whose `func`
+    (when the dict has one) is a callable answering from the `call_func` table"""
+    def __init__(self, stubs: Stubs):
+        self.stubs = stubs
+
+    def parse_args(self, argv=None):
+        d = self.stubs.outcome("parse_args", [argv])
+        ns = argparse.Namespace(**d) if isinstance(d, dict) else d
+        if isinstance(d, dict) and "func" in d:
+            ns.func = lambda a, d=d: self.stubs.outcome("call_func", [d])
+        return ns
+
+    def print_help(self):
+        sys.stdout.write("usage\n")
+
+
 class _YamlFinder:
     def __init__(self, stubs: Stubs):
         self.stubs = stubs
@@ -126,7 +145,7 @@ def installed(stubs: Stubs, ext: dict):
     """the real modules see the stub collaborators; everything is put back afterwards"""
     from rbacx import cli as rcli
     from rbacx.store import policy_loader as rloader
-    saved_cli = {n: getattr(rcli, n) for n in ("validate_policy", "analyze_policy", "analyze_policyset", "_parse_require_attrs")}
+    saved_cli = {n: getattr(rcli, n) for n in ("validate_policy", "analyze_policy", "analyze_policyset", "_parse_require_attrs", "build_parser")}
     had_open = "open" in rcli.__dict__
     saved_json, saved_yaml, saved_stdin = rloader.json, sys.modules.get("yaml"), sys.stdin
     finder = _YamlFinder(stubs)
@@ -134,6 +153,11 @@ def installed(stubs: Stubs, ext: dict):
     try:
         for n in saved_cli:
             setattr(rcli, n, stubs.fn(n))
+
+        def build_parser_stub():
+            stubs.outcome("build_parser", [])
+            return _Parser(stubs)
+        rcli.build_parser = build_parser_stub
 
         def open_stub(path, mode="r", **kw):
             return _File(stubs.outcome("open_read", [path]))
@@ -185,6 +209,8 @@ def run_real(fn: str, args: list, ext: dict) -> dict:
                 v = rcli._lint_doc(args[0], policyset=args[1], require_attrs=args[2])
             elif fn == "_validate_doc":
                 v = rcli._validate_doc(args[0], policyset=args[1])
+            elif fn == "main":
+                v = rcli.main(args[0])
             elif fn in ("cmd_lint", "cmd_validate", "cmd_check"):
                 v = getattr(rcli, fn)(argparse.Namespace(**args[0]))
             else:
@@ -196,7 +222,10 @@ def run_real(fn: str, args: list, ext: dict) -> dict:
 
 def line(fn: str, args: list, ext: dict) -> str:
     def res(o):
-        return {"ok": proto.enc(o[1])} if o[0] == "ok" else {"err": {"cls": o[1], "msg": str(make_exc(o[1])), "code": None}}
+        if o[0] == "ok":
+            return {"ok": proto.enc(o[1])}
+        e = make_exc(o[1])
+        return {"err": {"cls": type(e).__name__, "msg": str(e), "code": proto.enc(getattr(e, "code", None))}}
     return json.dumps({"fn": fn, "args": [proto.enc(a) for a in args],
                        "ext": {n: [[[proto.enc(x) for x in a], res(o)] for a, o in rows] for n, rows in ext.items()}})
 
@@ -373,4 +402,22 @@ def loader_cases() -> list:
                 ext = {"bytes_decode": [[["RAW", enc], dec]], "json_loads": [[["TEXT"], jsons[0]]], "import_yaml": [[[], imports[0]]],
                        "yaml_safe_load": [[["TEXT"], yamls[3]]]}
                 out.append(("parse_policy_bytes", ["RAW", fn, ct, fmt, enc], ext))
+    return out
+
+
+def main_cases(seed: int) -> list:
+    out = []
+    argvs = [None, [], ["--version"], ["-v"], ["validate", "--policy", "p.json"], ["lint", "-v"], ["--help"], ["bogus"]]
+    parses = [("ok", {"command": None}), ("ok", {"command": "validate", "func": "F", "policy": "p.json"}), ("err", "SystemExit:0"), ("err", "SystemExit:2"),
+              ("err", "SystemExit:null"), ("err", "KeyboardInterrupt"), ("err", "RuntimeError")]
+    calls = [("ok", 0), ("ok", 3), ("ok", 5), ("ok", 6), ("ok", True), ("ok", None), ("ok", [1]), ("ok", {"a": 1}), ("err", "FileNotFoundError"),
+             ("err", "JSONDecodeError"), ("err", "KeyboardInterrupt"), ("err", "SystemExit:4"), ("err", "AttributeError")]
+    for argv in argvs:
+        for parse in parses:
+            for call in (calls if parse[0] == "ok" and "func" in parse[1] else calls[:1]):
+                for bp in (("ok", None),) if (argv, parse) != (None, parses[0]) else (("ok", None), ("err", "ImportError")):
+                    ext = {"build_parser": [[[], bp]], "parse_args": [[[argv], parse]]}
+                    if parse[0] == "ok":
+                        ext["call_func"] = [[[parse[1]], call]]
+                    out.append(("main", [argv], ext))
     return out
